@@ -53,7 +53,8 @@ def mk_ep(name, role, nw, rng, alloc, array=None, nranges=1, style=None, gap=Non
     if "s" in role:
         rs = []
         for j in range(nranges):
-            size = rng.choice([0x1000, 0x10000, 0x40, 0x400000])
+            # sizes need not be powers of two or even: odd sizes give odd (exclusive) end addresses
+            size = rng.choice([0x1000, 0x10000, 0x40, 0x400000, 0x1000, 0x10000, 0xFFF, 0x1001, 3])
             g = rng.choice([0, 0, size, 0x100000]) if gap is None else gap
             if array is not None:
                 base = alloc.take(size * num, g)
@@ -207,6 +208,25 @@ def mesh(rng, m=2, n=2, algo="XY", nw=False, sides=(), cluster_role="ms", side_r
     tags = {"topo": "mesh", "m": m, "n": n, "sides": "".join(sides), "algo": algo, "dir_end": dir_end,
             "partial": partial is not None}
     return d, tags
+
+
+def mesh_mixed_sides(rng, m, n, algo="XY", nw=False, k=2, role="s", dir_end="dst"):
+    """m x n mesh with the clusters on the local ports and ONE endpoint array `edge[k]` whose elements sit on different
+    boundary sides (element 0 West of router (0,0), 1 North of (0,n-1), 2 East of (m-1,n-1), 3 South of (m-1,0)), each
+    attached by its own connection: the coordinate of an interface follows ITS link, not its descriptor's first one"""
+    d, t = mesh(rng, m, n, algo, nw, sides=(), dir_end=dir_end, force_dir=True)
+    if d is None:
+        return None, None
+    alloc = Alloc(rng, start=0x8000_0000)
+    d["endpoints"].append(mk_ep("edge", role, nw, rng, alloc, array=[k]))
+    spots = [([0, 0], "West"), ([0, n - 1], "North"), ([m - 1, n - 1], "East"), ([m - 1, 0], "South")]
+    for i in range(k):
+        idx, direction = spots[i]
+        if dir_end == "dst":
+            d["connections"].append({"src": "edge", "dst": "router", "src_idx": [i], "dst_idx": idx, "dst_dir": direction})
+        else:
+            d["connections"].append({"src": "router", "dst": "edge", "dst_idx": [i], "src_idx": idx, "src_dir": direction})
+    return d, dict(t, topo="mesh", sides="mixed-array", k=k)
 
 
 # ---------------------------------------------------------------------------------------------- tree
@@ -414,6 +434,12 @@ def address_suite(tier, seed):
                    dict(name="a", array=[4], **_roles(nw, "s"), addr_range=[{"base": 0, "size": size // 2},
                                                                            {"base": 2 * size, "size": size // 2}])]
             out.append((_addr_star(rng, algo, nw, 48, eps), {"topo": "star", "layout": "touching-descending-multi"}))
+    # ranges that meet at an odd address, written as start/end: the end bound is exclusive whatever its parity
+    for algo in ("ID", "SRC"):
+        eps = [dict(name="lo", **_roles(False, "ms"), addr_range={"start": 0, "end": 0xFFF}),
+               dict(name="io", **_roles(False, "m")),
+               dict(name="hi", **_roles(False, "s"), addr_range=[{"start": 0xFFF, "end": 0x2001}, {"start": 0x9000, "end": 0x9001, "desc": "one"}])]
+        out.append((_addr_star(rng, algo, False, 32, eps), {"topo": "star", "layout": "odd-ends-touching"}))
     # overlapping descriptions: every pair (window, nested / partial / identical / one byte), both declaration orders
     size = 0x1000
     shapes = {
@@ -665,6 +691,13 @@ def xy_suite(tier, seed, algo="XY"):
         roles = {sd: rng.choice(["s", "ms", "m"]) for sd in "WESN"}
         out.append(mesh(rng, m, n, algo, rng.random() < 0.25, sides=sides, partial=part, side_role=roles,
                         cluster_role=rng.choice(["ms", "m", "s"]), side_nranges=rng.choice([1, 2])))
+    # one endpoint array whose elements sit on different sides
+    for (m, n) in ([(2, 2), (1, 2), (3, 2)] if tier == "quick" else [(1, 1), (2, 2), (1, 2), (2, 1), (3, 2), (3, 3)]):
+        for kk in (2, 3, 4):
+            for de in ("dst", "src"):
+                d, t = mesh_mixed_sides(rng, m, n, algo, rng.random() < 0.3, k=kk, role=rng.choice(["s", "ms", "m"]), dir_end=de)
+                if d is not None:
+                    out.append((d, t))
     return [(d, t) for d, t in out if d is not None]
 
 
